@@ -190,6 +190,13 @@ fn c05_plain<T: Plain>(ctx: &mut Ctx, m: &Model) -> R {
     ctx.check("to_string-vs-formatter", s == want && d == want && f == want, || {
         format!("{}\nreal code: to_string() = {:?}, Display = {:?}, String::from = {:?}\noracle: {:?}", input(), s, d, f, want)
     })?;
+    // the formatting trait ignores width / precision / alignment / fill: always that same text
+    let specs = ctx.nopanic("to_string-never-panics", || format_specs(&h), input)?;
+    for (spec, got) in &specs {
+        ctx.check("display-with-format-spec", *got == want, || {
+            format!("{}\nformat spec: {}\nreal code: Display gives {:?}\noracle: the same text as to_string(): {:?}", input(), spec, got, want)
+        })?;
+    }
     let l = h.len_str();
     ctx.check("advertised-length", l == want.len() && l <= T::MAX_STR, || {
         format!("{}\nreal code: len_in_str() = {}, MAX_LEN_IN_STR = {}\noracle: {} (and not above the maximum)", input(), l, T::MAX_STR, want.len())
@@ -217,6 +224,42 @@ fn c05_plain<T: Plain>(ctx: &mut Ctx, m: &Model) -> R {
     })
 }
 
+/// Display under a few width / precision / alignment / fill specifications.
+fn format_specs<T: std::fmt::Display>(h: &T) -> Vec<(&'static str, String)> {
+    vec![
+        ("{:5}", format!("{:5}", h)),
+        ("{:.60}", format!("{:.60}", h)),
+        ("{:.0}", format!("{:.0}", h)),
+        ("{:.3}", format!("{:.3}", h)),
+        ("{:<120}", format!("{:<120}", h)),
+        ("{:>80}", format!("{:>80}", h)),
+        ("{:^90}", format!("{:^90}", h)),
+        ("{:*^200}", format!("{:*^200}", h)),
+        ("{:0>150}", format!("{:0>150}", h)),
+        ("{:->300.10}", format!("{:->300.10}", h)),
+        ("{:w$.p$} (w=160, p=7)", format!("{:w$.p$}", h, w = 160, p = 7)),
+    ]
+}
+
+/// The dual types' Display ("{normalized|raw}") under format specifications and against its parts.
+fn c05_dual<D: Dual>(ctx: &mut Ctx, m: &Model) -> R {
+    let input = || format!("type {}, raw hash {}", D::NAME, m.text());
+    let obs = ctx.nopanic("to_string-never-panics", || {
+        let d = D::from_raw(&D::Raw::of(m));
+        (format!("{}", d), d.to_string(), format_specs(&d), d.norm_string(), d.raw_string())
+    }, input)?;
+    let want = format!("{{{}|{}}}", m.normalized().text(), m.text());
+    ctx.check("dual-display", obs.0 == want && obs.1 == want && obs.3 == m.normalized().text() && obs.4 == m.text(), || {
+        format!("{}\nreal code: Display {:?}, to_string {:?}, to_normalized_string {:?}, to_raw_form_string {:?}\noracle: {:?}", input(), obs.0, obs.1, obs.3, obs.4, want)
+    })?;
+    for (spec, got) in &obs.2 {
+        ctx.check("display-with-format-spec", *got == want, || {
+            format!("{}\nformat spec: {}\nreal code: Display gives {:?}\noracle: the same text as to_string(): {:?}", input(), spec, got, want)
+        })?;
+    }
+    Ok(())
+}
+
 pub fn c05(ctx: &mut Ctx) -> R {
     while ctx.alive() {
         ctx.input();
@@ -229,6 +272,17 @@ pub fn c05(ctx: &mut Ctx) -> R {
         c05_plain::<LongFuzzyHash>(ctx, &ml.normalized())?;
         let mn = gen::model_norm(&mut ctx.rng, 64);
         c05_plain::<LongFuzzyHash>(ctx, &mn)?;
+        c05_dual::<DualFuzzyHash>(ctx, &m)?;
+        c05_dual::<LongDualFuzzyHash>(ctx, &ml)?;
+        // edge shapes: empty, up to 3 symbols, exactly capacity, block hash 1 empty
+        let e = gen::model_second(&mut ctx.rng, 32);
+        c05_plain::<RawFuzzyHash>(ctx, &e)?;
+        c05_plain::<FuzzyHash>(ctx, &e.normalized())?;
+        c05_dual::<DualFuzzyHash>(ctx, &e)?;
+        let e = gen::model_second(&mut ctx.rng, 64);
+        c05_plain::<LongRawFuzzyHash>(ctx, &e)?;
+        c05_plain::<LongFuzzyHash>(ctx, &e.normalized())?;
+        c05_dual::<LongDualFuzzyHash>(ctx, &e)?;
         // accepted texts (with optional comma part) survive: covered per text by C04's parse-then-format
         let t = gen::hash_text(&mut ctx.rng);
         c04_plain::<RawFuzzyHash>(ctx, &t)?;
@@ -298,6 +352,115 @@ fn c06_family<F: Family>(ctx: &mut Ctx, m: &Model) -> R {
     })
 }
 
+/// Re-initialisation of used objects: everything that can be overwritten is first given
+/// `first` (long, run-rich) and then `second` (often tiny); the result must be
+/// indistinguishable from the fresh route.
+fn reinit_family<F: Family>(ctx: &mut Ctx, first: &Model, second: &Model) -> R {
+    let input = || format!("first content {} , then overwritten with {} ({} / {})", first.text(), second.text(), <F::D as Dual>::NAME, F::Raw::NAME);
+    let want_raw = second.clone();
+    let want_norm = second.normalized();
+    let obs = ctx.nopanic("reinitialisation-never-panics", || {
+        let raw1 = F::Raw::of(first);
+        let raw2 = F::Raw::of(second);
+        let norm2 = F::normalize(&raw2);
+        let fresh = F::D::from_raw(&raw2);
+        let mut v: Vec<(&'static str, bool, String)> = Vec::new();
+        // dual re-initialised from a raw hash
+        let mut d = F::D::from_raw(&raw1);
+        d.init_from_raw(&raw2);
+        let same = d == fresh && d.cmp(&fresh) == Ordering::Equal && fresh.cmp(&d) == Ordering::Equal && hash_of(&d) == hash_of(&fresh);
+        let parts = d.valid()
+            && d.to_raw().feq(&raw2) && d.to_raw().valid_both()
+            && d.as_norm().feq(&norm2) && d.to_norm().feq(&norm2) && d.as_norm().valid_both()
+            && d.raw_string() == want_raw.text() && d.norm_string() == want_norm.text()
+            && d.is_norm() == fresh.is_norm() && format!("{:?}", d) == format!("{:?}", fresh) && format!("{}", d) == format!("{}", fresh);
+        v.push(("dual.init_from_raw_form over a used dual", same && parts, format!("{:?} (is_valid={}, == fresh {}, cmp {:?}, to_raw_form {}, normalized {})", d, d.valid(), d == fresh, d.cmp(&fresh), d.to_raw(), d.as_norm())));
+        // twice: first -> second -> first -> second
+        let mut d2 = F::D::from_raw(&raw2);
+        d2.init_from_raw(&raw1);
+        let back_ok = d2 == F::D::from_raw(&raw1) && d2.valid() && d2.to_raw().feq(&raw1);
+        d2.init_from_raw(&raw2);
+        v.push(("dual.init_from_raw_form back and forth", back_ok && d2 == fresh && d2.valid() && d2.to_raw().feq(&raw2), format!("{:?}", d2)));
+        // dual normalized in place after re-initialisation
+        let mut d3 = d;
+        d3.norm_in_place();
+        v.push(("normalize_in_place after re-initialisation", d3 == F::D::from_norm(&norm2) && d3.valid() && d3.to_raw().model() == want_norm, format!("{:?}", d3)));
+        // expanding into a used raw object
+        let mut r = raw1;
+        fresh.into_mut_raw(&mut r);
+        v.push(("dual.into_mut_raw_form into a used raw hash", r.feq(&raw2) && r.valid_both() && r == raw2, format!("{} (is_valid={})", r, r.valid())));
+        let mut r = raw1;
+        F::D::from_raw(&raw1).into_mut_raw(&mut r);
+        let mut r2 = r;
+        F::D::from_norm(&norm2).into_mut_raw(&mut r2);
+        v.push(("dual(from_normalized).into_mut_raw_form into a used raw hash", r.feq(&raw1) && r2.model() == want_norm && r2.valid_both() && r2.feq(&F::to_raw_form(&norm2)), format!("{} (is_valid={})", r2, r2.valid())));
+        // normalized -> used raw object
+        let mut r = raw1;
+        F::into_mut_raw_form(&norm2, &mut r);
+        v.push(("into_mut_raw_form into a used raw hash", r.feq(&F::to_raw_form(&norm2)) && r.valid_both() && r.model() == want_norm, format!("{} (is_valid={})", r, r.valid())));
+        // in-place normalization of a copy of the used object re-filled through the array initialiser
+        let mut a = raw1;
+        a.init_arrays(raw2.lb(), raw2.arr1(), raw2.arr2(), raw2.l1() as u8, raw2.l2() as u8);
+        let a_ok = a.feq(&raw2) && a.valid_both();
+        a.norm_in_place();
+        v.push(("init_from_internals_raw over a used raw hash, then normalize_in_place", a_ok && a.model() == want_norm && a.valid_both() && a.feq(&raw2.clone_norm()), format!("{} (is_valid={})", a, a.valid())));
+        let mut n = F::normalize(&raw1);
+        n.init_arrays(norm2.lb(), norm2.arr1(), norm2.arr2(), norm2.l1() as u8, norm2.l2() as u8);
+        v.push(("init_from_internals_raw over a used normalized hash", n.feq(&norm2) && n.valid_both(), format!("{} (is_valid={})", n, n.valid())));
+        v
+    }, input)?;
+    for (route, ok, shown) in &obs {
+        ctx.check("reinitialised-equals-fresh", *ok, || {
+            format!("{}\nroute: {}\nreal code: {}\noracle: indistinguishable from the object built freshly from {} (normalized {})", input(), route, shown, want_raw.text(), want_norm.text())
+        })?;
+    }
+    Ok(())
+}
+
+/// The same for the short <-> long conversions into used destinations.
+fn reinit_width<W: Width>(ctx: &mut Ctx, first_s: &Model, first_l: &Model, second: &Model) -> R {
+    let input = || format!("destinations first hold {} (short) / {} (long), then receive {} ({} / {})", first_s.text(), first_l.text(), second.text(), W::Short::NAME, W::Long::NAME);
+    let obs = ctx.nopanic("reinitialisation-never-panics", || {
+        let s2 = W::Short::of(second);
+        let l2 = W::to_long_form(&s2);
+        let mut v: Vec<(&'static str, bool, String)> = Vec::new();
+        let mut l = W::Long::of(first_l);
+        W::into_mut_long_form(&s2, &mut l);
+        v.push(("into_mut_long_form into a used long hash", l.feq(&l2) && l.valid_both() && l.model() == *second && l == l2, format!("{} (is_valid={})", l, l.valid())));
+        let mut s = W::Short::of(first_s);
+        let r = W::try_into_mut_short(&l2, &mut s);
+        v.push(("try_into_mut_short into a used short hash", r.is_ok() && s.feq(&s2) && s.valid_both() && s == s2, format!("{:?}, {} (is_valid={})", r, s, s.valid())));
+        // a long source that does not fit must leave the used destination alone
+        let big = W::Long::of(first_l);
+        let mut s = s2;
+        let r = W::try_into_mut_short(&big, &mut s);
+        let fits = first_l.bh2.len() <= 32;
+        v.push(("try_into_mut_short of a long hash into a used short hash", if fits { r.is_ok() && s.model() == *first_l && s.valid_both() } else { r.is_err() && s.feq(&s2) }, format!("{:?}, {} (is_valid={})", r, s, s.valid())));
+        v
+    }, input)?;
+    for (route, ok, shown) in &obs {
+        ctx.check("reinitialised-equals-fresh", *ok, || {
+            format!("{}\nroute: {}\nreal code: {}\noracle: the destination is indistinguishable from a fresh conversion result (or untouched when the source does not fit)", input(), route, shown)
+        })?;
+    }
+    Ok(())
+}
+
+/// One round of overwriting used objects, all families and widths.
+fn reinit_round(ctx: &mut Ctx) -> R {
+    let f_s = gen::model_rich(&mut ctx.rng, 32);
+    let f_l = gen::model_rich(&mut ctx.rng, 64);
+    let s_s = gen::model_second(&mut ctx.rng, 32);
+    let s_l = gen::model_second(&mut ctx.rng, 64);
+    reinit_family::<ShortFamily>(ctx, &f_s, &s_s)?;
+    reinit_family::<LongFamily>(ctx, &f_l, &s_l)?;
+    // and the other way round: a rich hash over a tiny one
+    reinit_family::<ShortFamily>(ctx, &s_s, &f_s)?;
+    reinit_family::<LongFamily>(ctx, &s_l, &f_l)?;
+    reinit_width::<RawWidth>(ctx, &f_s, &f_l, &s_s)?;
+    reinit_width::<NormWidth>(ctx, &f_s.normalized(), &f_l.normalized(), &s_s.normalized())
+}
+
 pub fn c06(ctx: &mut Ctx) -> R {
     // a run of every length at every position (short strings around it)
     'outer: for len in 1..=64usize {
@@ -327,6 +490,11 @@ pub fn c06(ctx: &mut Ctx) -> R {
         c06_family::<ShortFamily>(ctx, &m)?;
         let m = gen::model_raw(&mut ctx.rng, 64);
         c06_family::<LongFamily>(ctx, &m)?;
+        let m = gen::model_second(&mut ctx.rng, 32);
+        c06_family::<ShortFamily>(ctx, &m)?;
+        let m = gen::model_rich(&mut ctx.rng, 64);
+        c06_family::<LongFamily>(ctx, &m)?;
+        reinit_round(ctx)?;
     }
     Ok(())
 }
@@ -464,6 +632,12 @@ pub fn c07(ctx: &mut Ctx) -> R {
         let m = gen::model_raw(&mut ctx.rng, 64);
         let o = if ctx.rng.chance(2, 3) { same_norm_other_runs(ctx, &m, 64) } else { gen::model_raw(&mut ctx.rng, 64) };
         c07_family::<LongFamily>(ctx, &m, &o)?;
+        // a tiny / edge-shaped hash over a used, run-rich one
+        let (m, o) = (gen::model_second(&mut ctx.rng, 32), gen::model_rich(&mut ctx.rng, 32));
+        c07_family::<ShortFamily>(ctx, &m, &o)?;
+        let (m, o) = (gen::model_second(&mut ctx.rng, 64), gen::model_rich(&mut ctx.rng, 64));
+        c07_family::<LongFamily>(ctx, &m, &o)?;
+        reinit_round(ctx)?;
     }
     Ok(())
 }
@@ -548,10 +722,12 @@ fn c15_family<F: Family>(ctx: &mut Ctx, mn: &Model, junk: &Model) -> R {
 pub fn c15(ctx: &mut Ctx) -> R {
     while ctx.alive() {
         ctx.input();
-        let rs = gen::model_raw(&mut ctx.rng, 32);
-        let rl = gen::model_raw(&mut ctx.rng, 64);
-        let js = gen::model_raw(&mut ctx.rng, 32);
-        let jl = gen::model_raw(&mut ctx.rng, 64);
+        let edge = ctx.rng.chance(1, 2);
+        let rs = if edge { gen::model_second(&mut ctx.rng, 32) } else { gen::model_raw(&mut ctx.rng, 32) };
+        let rl = if edge { gen::model_second(&mut ctx.rng, 64) } else { gen::model_raw(&mut ctx.rng, 64) };
+        let js = if ctx.rng.chance(2, 3) { gen::model_rich(&mut ctx.rng, 32) } else { gen::model_raw(&mut ctx.rng, 32) };
+        let jl = if ctx.rng.chance(2, 3) { gen::model_rich(&mut ctx.rng, 64) } else { gen::model_raw(&mut ctx.rng, 64) };
+        reinit_round(ctx)?;
         c15_width::<RawWidth>(ctx, &rs, &rl, &js, &jl)?;
         c15_width::<NormWidth>(ctx, &rs.normalized(), &rl.normalized(), &js.normalized(), &jl.normalized())?;
         c15_family::<ShortFamily>(ctx, &rs.normalized(), &js)?;
@@ -801,7 +977,7 @@ fn c11_plain<T: Plain>(ctx: &mut Ctx) -> R {
         let name = if init { "init_from_internals_raw (on a used object)" } else { "new_from_internals_raw" };
         let r = guard(|| {
             if init {
-                let mut h = T::parse(b"6:AAAB:CCCD").unwrap();
+                let mut h = T::parse(b"3221225472:AAABBBCCCDDDEEEFFFGGGHHHIIIJJJKKKLLLMMMNNNOOOPPPQQQRRRSSSTTTUUUV:zzzyyyxxxwwwvvvuuutttsssrrrqqqpp").unwrap();
                 h.init_arrays(log, &a1, &a2, n1, n2);
                 h
             } else {
@@ -888,6 +1064,8 @@ pub fn c11(ctx: &mut Ctx) -> R {
         c11_plain::<LongRawFuzzyHash>(ctx)?;
         c11_dual::<DualFuzzyHash>(ctx)?;
         c11_dual::<LongDualFuzzyHash>(ctx)?;
+        // destinations that still hold the content of earlier operations
+        reinit_round(ctx)?;
         // the other routes to objects: every check there includes validity of the results
         match round % 4 {
             0 => {
@@ -898,22 +1076,22 @@ pub fn c11(ctx: &mut Ctx) -> R {
                 c04_all(ctx, &t)?;
             }
             1 => {
-                let m = gen::model_raw(&mut ctx.rng, 32);
-                let o = gen::model_raw(&mut ctx.rng, 32);
+                let m = gen::model_second(&mut ctx.rng, 32);
+                let o = gen::model_rich(&mut ctx.rng, 32);
                 c06_family::<ShortFamily>(ctx, &m)?;
                 c07_family::<ShortFamily>(ctx, &m, &o)?;
             }
             2 => {
-                let m = gen::model_raw(&mut ctx.rng, 64);
-                let o = gen::model_raw(&mut ctx.rng, 64);
+                let m = gen::model_second(&mut ctx.rng, 64);
+                let o = gen::model_rich(&mut ctx.rng, 64);
                 c06_family::<LongFamily>(ctx, &m)?;
                 c07_family::<LongFamily>(ctx, &m, &o)?;
             }
             _ => {
-                let rs = gen::model_raw(&mut ctx.rng, 32);
-                let rl = gen::model_raw(&mut ctx.rng, 64);
-                let js = gen::model_raw(&mut ctx.rng, 32);
-                let jl = gen::model_raw(&mut ctx.rng, 64);
+                let rs = gen::model_second(&mut ctx.rng, 32);
+                let rl = gen::model_second(&mut ctx.rng, 64);
+                let js = gen::model_rich(&mut ctx.rng, 32);
+                let jl = gen::model_rich(&mut ctx.rng, 64);
                 c15_width::<RawWidth>(ctx, &rs, &rl, &js, &jl)?;
                 c15_width::<NormWidth>(ctx, &rs.normalized(), &rl.normalized(), &js.normalized(), &jl.normalized())?;
             }
